@@ -150,6 +150,7 @@ def step' (d : DSt) (toks0 : List String) : DSt × String :=
   | ["autophagy"] => doOp d .autophagy
   | ["adv", us] => doOp d (.advance (natD us))
   | ["clearbin"] => doOp d .clearBin
+  | ["status"] => doOp d (.advance 0)      -- the read-only entry points (statistics, queue status, recycled): nothing changes
   | _ => (d, "bad-op")
 
 def main : IO Unit := runDriver ({} : DSt) step'
